@@ -16,8 +16,8 @@ type houdiniOb struct {
 
 // fnState carries information between translation passes of one function.
 type fnState struct {
-	cands      map[int][]*candidate // by loop ordinal
-	knownHeaps map[string]string
+	cands       map[int][]*candidate // by loop ordinal
+	knownHeaps  map[string]string
 	knownLocals map[string]string
 }
 
